@@ -81,7 +81,7 @@ AbortR == Rep("abort", 0, <<>>)
 NoneR  == Rep("none", 0, <<>>)
 
 NoDep == <<>>
-IdleS == [rpc |-> "idle", round |-> 0, pend |-> NoneR, fail |-> FALSE,
+IdleS == [rpc |-> "idle", round |-> 0, pend |-> NoneR, fail |-> FALSE, late |-> FALSE,
           nroots |-> <<>>, k |-> 0, g |-> 0, cost |-> 0, coll |-> 0, deps |-> NoDep, kind |-> "none", target |-> 0]
 
 Pay(r, cost, coll) == [r EXCEPT !.num = @ + 1, !.rout = @ - cost, !.hout = @ + cost, !.missed = @ - coll]
@@ -495,13 +495,17 @@ NewRev(r, kind, A, C, x) ==
      commit |-> r.commit,
      ph |-> x.ph, eh |-> x.eh, dur |-> x.dur, rk |-> r.rk, hk |-> r.hk]
 
-BeginRenew(s, kind, pf, cf, rf, A, C) ==      \* rf: class of the renewal parameters
+\* rf: class of the renewal request.  "ok"; "bad": parameters the host refuses at once; "poolbad": everything
+\* the host checks itself is fine but the renter's transaction parts are invalid for the transaction pool only
+\* (a renter input that does not exist / is already spent): the exchange goes on and must fail at the end --
+\* like a corrupted renter INPUT signature in round 2 (sf = "badinput") -- with NOTHING changed.
+BeginRenew(s, kind, pf, cf, rf, A, C) ==
     /\ Idle(s)
     /\ act' = [op |-> "BeginRenew", s |-> s, kind |-> kind, pf |-> pf, cf |-> cf, rf |-> rf, na |-> A, nc |-> C]
-    /\ IF pf # "ok" \/ Locked \/ cf # "ok" \/ rf # "ok"
+    /\ IF pf # "ok" \/ Locked \/ cf # "ok" \/ rf \notin {"ok", "poolbad"}
        THEN Reject(s, "renew")
        ELSE /\ sess' = [sess EXCEPT ![s] = [IdleS EXCEPT !.rpc = "renew", !.round = 1, !.kind = kind, !.pend = Rep("resp", 0, <<>>),
-                                                       !.cost = A, !.coll = C]]
+                                                       !.cost = A, !.coll = C, !.late = (rf = "poolbad")]]
             /\ lock' = s
             /\ calls' = <<>>
             /\ reply' = NoneR
@@ -511,7 +515,7 @@ Round2Renew(s, sf, x) ==
     /\ sess[s].rpc = "renew" /\ sess[s].round = 2
     /\ act' = [op |-> "Round2Renew", s |-> s, sf |-> sf, kind |-> sess[s].kind]
     /\ reply' = NoneR
-    /\ IF sf = "ok"
+    /\ IF sf = "ok" /\ ~sess[s].late
        THEN /\ x.hout >= 0 /\ x.coll >= 0 /\ x.dur > 0
             /\ olds' = Append(olds, [rev |-> rev, roots |-> roots])
             /\ rev' = NewRev(rev, sess[s].kind, sess[s].cost, sess[s].coll, x)
